@@ -38,7 +38,27 @@ func ZZ_C17_Membership() {
 	type sub struct{ share, filter string }
 	subs := map[string]map[sub]bool{"n1": {}, "n2": {}}
 	menu := []sub{{"", "a"}, {"", "a/+"}, {"g1", "a"}, {"g1", "#"}}
-	evID := uint64(0)
+	// what each node really holds (a failure n0 merely suspects does not change it), the
+	// session id its peer object for n0 uses, and its event numbering
+	real := map[string]map[sub]bool{"n1": {}, "n2": {}}
+	sid := map[string]string{"n1": "s-n1", "n2": "s-n2"}
+	gen := map[string]int{}
+	next := map[string]uint64{}
+	shook := map[string]bool{}
+	// the history starts from a cluster in which n1 is a member, has shaken hands and has
+	// announced one subscription (the steps then reach fail / rejoin / resync sooner)
+	{
+		f.nodeJoin(serf.MemberEvent{Type: serf.EventMemberJoin, Members: []serf.Member{{Name: "n1"}}})
+		member["n1"] = true
+		ctx := metadata.NewIncomingContext(context.Background(), metadata.Pairs("node_name", "n1"))
+		resp, err := f.Hello(ctx, &ClientHello{SessionId: sid["n1"]})
+		zzrt.Assert(err == nil && resp != nil && resp.CleanStart, "first-handshake-is-a-clean-start")
+		s0 := menu[zzrt.Choice(2)]
+		real["n1"][s0] = true
+		f.eventStreamHandler(f.sessionMgr.get("n1"), &Event{Id: 0, Event: &Event_Subscribe{Subscribe: &Subscribe{ShareName: s0.share, TopicFilter: s0.filter}}})
+		next["n1"] = 1
+		shook["n1"] = true
+	}
 	for step := 0; step < K; step++ {
 		n := nodes[zzrt.Choice(2)]
 		ev := serf.MemberEvent{Members: []serf.Member{{Name: n}}}
@@ -55,19 +75,49 @@ func ZZ_C17_Membership() {
 				zzrt.Cover("failed-with-state")
 			}
 			member[n] = false
-			subs[n] = map[sub]bool{}
+			shook[n] = false
+			if zzrt.Choice(2) == 1 {
+				// the node really went away: it comes back empty, as a new process
+				real[n] = map[sub]bool{}
+				gen[n]++
+				sid[n] = "s-" + n + "-" + string(rune('a'+gen[n]))
+				next[n] = 0
+			} else {
+				zzrt.Cover("suspected-only")
+			}
 			zzrt.Assert(f.peers[n] == nil, "failed-node-is-no-longer-a-peer")
 		case 2: // the node (if it is a member) connects and announces a subscription
 			if !member[n] {
 				continue
 			}
 			ctx := metadata.NewIncomingContext(context.Background(), metadata.Pairs("node_name", n))
-			_, err := f.Hello(ctx, &ClientHello{SessionId: "s-" + n})
-			zzrt.Assert(err == nil, "member-handshake-accepted")
+			resp, err := f.Hello(ctx, &ClientHello{SessionId: sid[n]})
+			zzrt.Assert(err == nil && resp != nil, "member-handshake-accepted")
+			if resp.CleanStart {
+				// the node starts its stream over and sends its whole state again
+				next[n] = 0
+				for s := range real[n] {
+					f.eventStreamHandler(f.sessionMgr.get(n), &Event{Id: next[n], Event: &Event_Subscribe{Subscribe: &Subscribe{ShareName: s.share, TopicFilter: s.filter}}})
+					next[n]++
+				}
+			}
 			s := menu[zzrt.Choice(len(menu))]
-			subs[n][s] = true
-			evID++
-			f.eventStreamHandler(f.sessionMgr.get(n), &Event{Id: evID, Event: &Event_Subscribe{Subscribe: &Subscribe{ShareName: s.share, TopicFilter: s.filter}}})
+			if !real[n][s] {
+				real[n][s] = true
+				f.eventStreamHandler(f.sessionMgr.get(n), &Event{Id: next[n], Event: &Event_Subscribe{Subscribe: &Subscribe{ShareName: s.share, TopicFilter: s.filter}}})
+				next[n]++
+			}
+			shook[n] = true
+		}
+	}
+	// what n0 must know: the real subscriptions of every member that has shaken hands
+	// since it (re)joined; nothing about the others
+	for _, n := range nodes {
+		subs[n] = map[sub]bool{}
+		if member[n] && shook[n] {
+			for s := range real[n] {
+				subs[n][s] = true
+			}
 		}
 	}
 	// the federation store knows exactly the live members' announced subscriptions
